@@ -390,7 +390,10 @@ func multilinePrintableName(info *NodeInfo) string {
 	infoCopy.Name = strings.Replace(infoCopy.Name, "[...]", "[…]", -1)
 	infoCopy.Name = strings.Replace(infoCopy.Name, ".", `\n`, -1)
 	if infoCopy.File != "" {
-		infoCopy.File = filepath.Base(infoCopy.File)
+		infoCopy.File = escapeForDot(filepath.Base(infoCopy.File))
+	}
+	if infoCopy.Objfile != "" {
+		infoCopy.Objfile = escapeForDot(filepath.Base(infoCopy.Objfile))
 	}
 	return strings.Join(infoCopy.NameComponents(), `\n`) + `\n`
 }
